@@ -36,5 +36,6 @@ func VerifyMerkelProof(txid, root, proof []byte, index uint32) bool {
 		index >>= 1
 	}
 
-	return bytes.Equal(current, root)
+	// the index must be fully consumed, otherwise it refers to a position outside of the tree
+	return index == 0 && bytes.Equal(current, root)
 }
